@@ -74,7 +74,7 @@ def _snap(ci, objs):
     return {"top": top, "kids": kids, "parent": parent, "byuid": byuid, "byid_bad": byid_bad, "attrs": attrs}
 
 
-def _queries(rng_key, n_objs, placed):
+def _queries(rng_key, n_objs, placed, with_self=True):
     """all arch filters x all type subsets x recursive on the top-level container; a sample on variants (incl. 'self')"""
     qs = []
     archs = [None, ""] + ARCHES + ["src"]
@@ -88,12 +88,13 @@ def _queries(rng_key, n_objs, placed):
                 qs.append({"q": "gv", "c": None, "arch": a, "types": t, "rec": rec})
     import random
     rnd = random.Random(rng_key)
-    qs.append({"q": "gv", "c": None, "arch": None, "types": ["self"], "rec": False})
-    qs.append({"q": "gv", "c": None, "arch": None, "types": ["self", "variant"], "rec": True})
+    if with_self:
+        qs.append({"q": "gv", "c": None, "arch": None, "types": ["self"], "rec": False})
+        qs.append({"q": "gv", "c": None, "arch": None, "types": ["self", "variant"], "rec": True})
     for c in placed[:3]:
         for _ in range(10):
             t = rnd.choice(subsets)
-            if rnd.random() < 0.4:
+            if with_self and rnd.random() < 0.4:
                 t = t + ["self"]
                 rnd.shuffle(t)
             qs.append({"q": "gv", "c": c, "arch": rnd.choice(archs), "types": t, "rec": rnd.random() < 0.6})
@@ -170,7 +171,7 @@ def execute(case):
         steps.append(st)
     final = steps[-1] if steps else _snap(ci, objs)
     placed = _placed(final)
-    qs = _queries(checklib.key_of(a["ops"]), len(objs), placed)
+    qs = _queries(checklib.key_of(a["ops"]), len(objs), placed, a.get("self_queries", True))
     qres = [_run_query(ci, objs, q) for q in qs]
     # write/read cycle
     reload = None
@@ -190,7 +191,7 @@ def execute(case):
             else:
                 objs2, ops2 = _reload_history(ci2)
                 snap2 = _snap(ci2, objs2)
-                qs2 = _queries(checklib.key_of(a["ops"]) + "r", len(objs2), _placed(snap2))
+                qs2 = _queries(checklib.key_of(a["ops"]) + "r", len(objs2), _placed(snap2), a.get("self_queries", True))
                 reload = {"variants": snap2["attrs"], "ops": ops2, "snap": snap2, "queries": qs2,
                           "qres": [_run_query(ci2, objs2, q) for q in qs2]}
     return {"steps": steps, "queries": qs, "qres": qres, "reload": reload}
@@ -434,8 +435,9 @@ def oracle_run(case, out):
                 check_gv(a2, rl["snap"], q, r, lambda k_, o, rq, f: fail("reload:" + k_, o, rq, dict(f, invariants_held_before=clean_before), step="reload"))
 
             def shape(at, snap):
+                reach = set(_placed(snap))         # the forest = what hangs below the top-level container
                 return sorted(set(json.dumps([None if p is None else at[p]["uid"], at[v]["id"], at[v]["uid"], at[v]["type"], at[v]["arches"]])
-                                  for p, k, v in _edges(snap)))
+                                  for p, k, v in _edges(snap) if p is None or p in reach))
             s1 = shape(attrs, final)
             s2 = shape(a2, rl["snap"])
             if clean_before and s1 != s2:
@@ -714,7 +716,9 @@ class Gen(object):
         while len(self.ops) < n and guard < 60:
             guard += 1
             self.step()
-        return {"op": "c11", "args": {"variants": self.variants, "ops": self.ops}}
+        # the pseudo-type 'self' (known finding F21 on every forest) is queried in the nasty stream and in one clean case out of ten
+        return {"op": "c11", "args": {"variants": self.variants, "ops": self.ops,
+                                      "self_queries": bool(self.nasty or self.rng.random() < 0.1)}}
 
 
 # ------------------------------------------------------------------------------------------------ the Prop
@@ -722,7 +726,7 @@ class C11(Prop):
     id = "C11"
     lean_module = "ProductMD.Properties.C11"
     quick_budget = 1500
-    thorough_budget = 6000
+    thorough_budget = 10000
     rule = ("histories of 2-14 add calls (valid, duplicate id, foreign arch, misaligned UID, bad id/field, own ancestor, already-placed, "
             "re-add, retry of a refused object, dashed top-level UIDs, explicit keys) on forests of <= 8 placed variants, depth <= 3; after EVERY "
             "step: outcome class, children dicts, parent pointers, ci[uid] of every object compared real vs model, and the property's "
@@ -743,9 +747,17 @@ class C11(Prop):
     }
 
     def cases(self, rng, tier, budget):
-        for i in range(budget):
-            nasty = (i % 5) >= 3
-            yield Gen(rng, tier, nasty).case()
+        if tier == "quick":
+            for i in range(budget):
+                yield Gen(rng, tier, (i % 5) >= 3).case()
+            return
+        # larger tiers: the clean stream first.  checklib stops consuming after a 2000-case chunk that produced more than 50
+        # oracle failures, and the nasty stream produces the known findings by the hundred.
+        n_clean = budget * 3 // 5
+        for i in range(n_clean):
+            yield Gen(rng, tier, False).case()
+        for i in range(budget - n_clean):
+            yield Gen(rng, tier, True).case()
 
     def __init__(self):
         self._cache = {}
